@@ -211,12 +211,23 @@ func (g *ModGraph) escape(from *ssa.Function, arg ssa.Value, site ssa.Instructio
 		seen[v] = true
 		switch x := v.(type) {
 		case *ssa.Function:
-			if c.InModule(x) {
+			if x.Synthetic != "" {
+				if t := forwardTarget(c, x); t != nil && c.InModule(t) {
+					addEdge(from, t, site, "escape")
+				}
+			} else if c.InModule(x) {
 				addEdge(from, x, site, "escape")
 			}
 		case *ssa.MakeClosure:
-			if f, ok := x.Fn.(*ssa.Function); ok && c.InModule(f) {
-				addEdge(from, f, site, "escape")
+			if f, ok := x.Fn.(*ssa.Function); ok {
+				if f.Synthetic != "" {
+					// a bound method value (x.m handed over as a function): the wrapper forwards to the method
+					if t := forwardTarget(c, f); t != nil && c.InModule(t) {
+						addEdge(from, t, site, "escape")
+					}
+				} else if c.InModule(f) {
+					addEdge(from, f, site, "escape")
+				}
 			}
 		case *ssa.MakeInterface:
 			t := x.X.Type()
